@@ -151,6 +151,9 @@ func (g *Gen) bloomCtor(i int) Tok {
 	}
 	// (n, p) chosen so that sizes include 1, non-multiples of 64, and k from 1 up
 	n := g.Pick(1, 1, 2, 3, 7, 10, 50, 100, 300)
+	if g.Small {
+		n = g.Pick(1, 2, 3, 7, 10)
+	}
 	p := g.Pick(999999, 900000, 600000, 500000, 300000, 100000, 10000, 1000, 100, 1)
 	return TL(TNi(blNewParams), TNi(i), TNi(n), TNi(p))
 }
